@@ -2,9 +2,9 @@ SPECIFICATION MCSpec
 CONSTANTS
   C = 2
   MaxParts = 3
-  Amts = {1, 3, 4, 5}
-  Tots = {3, 4, 5}
-  Secs = {"ok", "flip", "other"}
+  Amts = {1, 3, 4}
+  Tots = {4}
+  Secs = {"ok"}
   Cls = {"far"}
   RegAmt = 4
   RegMin = 0
@@ -13,11 +13,11 @@ CONSTANTS
   MaxTicks = 1
   MaxBlocks = 0
   MaxDev = 1
-  MaxOps = 6
+  MaxOps = 5
   StaleClaim = FALSE
   Flds = {"none"}
-  Sks = {"no"}
-  Ups = {FALSE}
+  Sks = {"no", "tlv", "s0", "s-1", "s=", "s+"}
+  Ups = {TRUE, FALSE}
   RegMeta = 0
   ClaimKinds = {"claim"}
   Bug = "none"
